@@ -15,6 +15,15 @@ def run(ctx):
                         "an error must arrive within 1 s although the configured timeout is 4 s; the session is not closed afterwards (closing is C07)"]
     if ctx.replay:
         rp = json.load(open(ctx.replay))["scenario"]
+        if rp.get("kind") == "real":
+            rp.pop("kind")
+            for rr in ctx.run_harness("isolated", [rp], args=["c06real"], env={"VERIF_WORKERS": "1"}):
+                ctx.count()
+                if rr.get("died"):
+                    ctx.violation("C06:real:%s:%s:process-died" % (rp["transport"], rp["when"]), "process died:\n" + rr.get("stderr", "")[-1800:], dict(rp, kind="real"))
+                elif not rr["ok"]:
+                    ctx.violation(rr["sig"], rr["detail"], dict(rp, kind="real"))
+            return
         res, died = faultlib.run_batches(ctx, [rp], "C06", workers=1)
         ctx.count()
         r = res[0]
@@ -87,6 +96,28 @@ def run(ctx):
                     ctx.violation(again[0].get("sig", rr["sig"]), again[0].get("detail", rr["detail"]), sc)
                 else:
                     ctx.notes.setdefault("unreproduced_candidates", []).append({"scenario": sc, "first": rr["detail"][:300]})
-    ctx.traces_validated = len(scns)
+    # the built-in transports: a real telnet connection over loopback and the standard SSH transport against the in-process
+    # server; the peer closes the connection while the session is idle / while an operation waits for the device
+    real = [{"transport": tr, "when": wh, "later": lt} for tr in ("telnet", "standard") for wh in ("idle", "inflight") for lt in (1, 3) for _ in range(2 if thorough else 1)]
+    rres = ctx.run_harness("isolated", real, args=["c06real"], timeout=900, env={"VERIF_WORKERS": "4"})
+    if len(rres) != len(real):
+        raise ToolError("isolated c06real answered %d of %d:\n%s" % (len(rres), len(real), ctx.last_stderr[-2000:]))
+    for rr in rres:
+        sc = dict(real[rr["id"]], kind="real")
+        ctx.count()
+        ctx.nontriv("real:%s/%s/%d" % (sc["transport"], sc["when"], sc["later"]))
+        if rr.get("toolerror") or rr.get("sig") == "TOOL":
+            raise ToolError(rr.get("toolerror") or rr.get("detail"))
+        if rr.get("died"):
+            st = rr.get("stderr", "")
+            ctx.violation("C06:real:%s:%s:process-died" % (sc["transport"], sc["when"]), "the process died during this scenario:\n" + st[-1800:], sc)
+        elif not rr["ok"]:
+            again = ctx.run_harness("isolated", [real[rr["id"]]], args=["c06real"], env={"VERIF_WORKERS": "1"})
+            if again and (again[0].get("died") or not again[0].get("ok", True)):
+                ctx.violation(again[0].get("sig", rr["sig"]) if not again[0].get("died") else "C06:real:%s:%s:process-died" % (sc["transport"], sc["when"]),
+                              again[0].get("detail", rr.get("detail", "")) or again[0].get("stderr", "")[-1500:], sc)
+            else:
+                ctx.notes.setdefault("unreproduced_candidates", []).append({"scenario": sc, "first": rr.get("detail", "")[:300]})
+    ctx.traces_validated = len(scns) + len(real)
     ctx.sample({"scenario": scns[len(scns) // 2]})
     ctx.notes["operations"] = [o["name"] for o in ops]
